@@ -5,6 +5,7 @@ import GS.Driver.Proto
 ops:   msg <q> <tok>…        tok = n:<id>:<total>:<rh ok|pa|rj|er>:<bh n|x<i>|p<i>|e<i>>  |  c:<id>  |  u:<id>:<uh n|x|e|u>
        start <p> <id> | step <p> <id> | pause <id> | unpause <id> | cancelresp <id> | updateresp <id>
        sent <p> <j> | neterr <p> <j>      (j-th stream created for peer p)
+       neterrw <p> <j> <q> <tok>…   network error; a message from q arrives between the subscriber's CloseWithNetworkError and TerminateRequest
 output (one line per op):
        <res> tx=[p#j:op,…] cm=[±p.id,…] hk=[rq.p.id|up.p.id|bk.p.id.i,…] ls=[pr.p.id|ca.p.id|co.p.id.code|ne.p.id,…]
        q=[+p.id|-p.id|xp.id,…] st=[p{id=s,…} … pend=[p.id,…] act=[p.id,…]]
@@ -105,6 +106,10 @@ def parseOp (t : Toks) : Option Op :=
     | some p, some j => some (.sent p j) | _, _ => none
   | ["neterr", p, j] => match p.toNat?, j.toNat? with
     | some p, some j => some (.neterr p j) | _, _ => none
+  | "neterrw" :: p :: j :: q :: rest =>
+    match p.toNat?, j.toNat?, q.toNat?, parseReqs rest with
+    | some p, some j, some q, some rs => if q < npeers then some (.neterrInj p j q rs) else none
+    | _, _, _, _ => none
   | _ => none
 
 def handler (ops : List Toks) : List String :=
